@@ -65,9 +65,7 @@ macro_rules! setup {
 #[kani::proof]
 #[kani::unwind(4)]
 fn c05_q_spsc_recv_vs_send() {
-  with_pick(40, |at| {
   setup!(1, 0, tx, rx);
-  sched::set_preempt_at(at);
   sched::install(a_send7, 1, 1);
   sched::set_stuck_is_bug(true);
   sched::allow_spurious_unpark(1);
@@ -76,17 +74,13 @@ fn c05_q_spsc_recv_vs_send() {
   kani::cover!(sched::started_at(1) > 2, "sender ran after recv's first checks");
   std::mem::forget(rx);
   std::mem::forget(tx);
-  assert!(sched::points() <= 40, "VERIF-BOUND: more scheduling points than the dispatch covers");
-  });
 }
 
 /// send() blocked on a full channel; the receiver's try_recv lands anywhere.
 #[kani::proof]
 #[kani::unwind(4)]
 fn c05_q_spsc_send_vs_recv() {
-  with_pick(40, |at| {
   setup!(1, 1, tx, rx);
-  sched::set_preempt_at(at);
   sched::install(a_recv, 1, 1);
   sched::set_stuck_is_bug(true);
   let r = tx.as_ref().unwrap().send(9);
@@ -96,46 +90,62 @@ fn c05_q_spsc_send_vs_recv() {
   kani::cover!(sched::started_at(1) > 2, "receiver ran after send's first checks");
   std::mem::forget(rx);
   std::mem::forget(tx);
-  assert!(sched::points() <= 40, "VERIF-BOUND: more scheduling points than the dispatch covers");
-  });
 }
 
 /// recv() blocked on an empty channel; the sender is dropped / closed anywhere: Disconnected.
 #[kani::proof]
 #[kani::unwind(4)]
-fn c05_q_spsc_recv_vs_sender_drop() {
-  with_pick(40, |at| {
+fn c05_t_spsc_recv_vs_sender_drop() {
   setup!(1, 0, tx, rx);
-  let close: bool = kani::any();
-  sched::set_preempt_at(at);
-  sched::install(if close { a_close_tx } else { a_drop_tx }, 1, 1);
+  sched::install(a_drop_tx, 1, 1);
   sched::set_stuck_is_bug(true);
   let r = rx.as_ref().unwrap().recv();
   assert!(r == Err(RecvError::Disconnected), "C05: recv did not observe the sender going away");
   kani::cover!(sched::started_at(1) > 2, "sender dropped after recv's first checks");
   std::mem::forget(rx);
   std::mem::forget(tx);
-  assert!(sched::points() <= 40, "VERIF-BOUND: more scheduling points than the dispatch covers");
-  });
+}
+
+/// recv() blocked on an empty channel; the sender is dropped / closed anywhere: Disconnected.
+#[kani::proof]
+#[kani::unwind(4)]
+fn c05_q_spsc_recv_vs_sender_close() {
+  setup!(1, 0, tx, rx);
+  sched::install(a_close_tx, 1, 1);
+  sched::set_stuck_is_bug(true);
+  let r = rx.as_ref().unwrap().recv();
+  assert!(r == Err(RecvError::Disconnected), "C05: recv did not observe the sender going away");
+  kani::cover!(sched::started_at(1) > 2, "sender dropped after recv's first checks");
+  std::mem::forget(rx);
+  std::mem::forget(tx);
 }
 
 /// send() blocked on a full channel; the receiver is dropped / closed anywhere: Closed.
 #[kani::proof]
 #[kani::unwind(4)]
 fn c05_q_spsc_send_vs_receiver_drop() {
-  with_pick(40, |at| {
   setup!(1, 1, tx, rx);
-  let close: bool = kani::any();
-  sched::set_preempt_at(at);
-  sched::install(if close { a_close_rx } else { a_drop_rx }, 1, 1);
+  sched::install(a_drop_rx, 1, 1);
   sched::set_stuck_is_bug(true);
   let r = tx.as_ref().unwrap().send(9);
   assert!(r == Err(SendError::Closed), "C05: blocked send did not observe the receiver going away");
   kani::cover!(sched::started_at(1) > 2, "receiver dropped after send's first checks");
   std::mem::forget(rx);
   std::mem::forget(tx);
-  assert!(sched::points() <= 40, "VERIF-BOUND: more scheduling points than the dispatch covers");
-  });
+}
+
+/// send() blocked on a full channel; the receiver is dropped / closed anywhere: Closed.
+#[kani::proof]
+#[kani::unwind(4)]
+fn c05_q_spsc_send_vs_receiver_close() {
+  setup!(1, 1, tx, rx);
+  sched::install(a_close_rx, 1, 1);
+  sched::set_stuck_is_bug(true);
+  let r = tx.as_ref().unwrap().send(9);
+  assert!(r == Err(SendError::Closed), "C05: blocked send did not observe the receiver going away");
+  kani::cover!(sched::started_at(1) > 2, "receiver dropped after send's first checks");
+  std::mem::forget(rx);
+  std::mem::forget(tx);
 }
 
 /// C04 straggler window: the last sender sends and is dropped while recv() is in flight: the value
@@ -143,9 +153,7 @@ fn c05_q_spsc_send_vs_receiver_drop() {
 #[kani::proof]
 #[kani::unwind(4)]
 fn c04_q_spsc_recv_vs_send_then_drop() {
-  with_pick(40, |at| {
   setup!(1, 0, tx, rx);
-  sched::set_preempt_at(at);
   sched::install(a_send7_then_drop, 1, 1);
   sched::set_stuck_is_bug(true);
   let r = rx.as_ref().unwrap().recv();
@@ -154,17 +162,13 @@ fn c04_q_spsc_recv_vs_send_then_drop() {
   kani::cover!(sched::started_at(1) > 2, "sender ran after recv's first checks");
   std::mem::forget(rx);
   std::mem::forget(tx);
-  assert!(sched::points() <= 40, "VERIF-BOUND: more scheduling points than the dispatch covers");
-  });
 }
 
 /// try_recv flavour of the same window (non-blocking).
 #[kani::proof]
 #[kani::unwind(4)]
 fn c04_q_spsc_try_recv_vs_send_then_drop() {
-  with_pick(40, |at| {
   setup!(1, 0, tx, rx);
-  sched::set_preempt_at(at);
   sched::install(a_send7_then_drop, 1, 1);
   let r = rx.as_ref().unwrap().try_recv();
   sched::run_pending();
@@ -181,17 +185,13 @@ fn c04_q_spsc_try_recv_vs_send_then_drop() {
   kani::cover!(r.is_err(), "try_recv returned before the send landed");
   std::mem::forget(rx);
   std::mem::forget(tx);
-  assert!(sched::points() <= 40, "VERIF-BOUND: more scheduling points than the dispatch covers");
-  });
 }
 
 /// C01 race: timed receive vs send. Timeout => the value is still in the channel; Ok => it is the value.
 #[kani::proof]
 #[kani::unwind(4)]
 fn c01_q_spsc_recv_timeout_vs_send() {
-  with_pick(40, |at| {
   setup!(1, 0, tx, rx);
-  sched::set_preempt_at(at);
   sched::install(a_send7, 1, 1);
   let r = rx.as_mut().unwrap().recv_timeout(Duration::from_nanos(5));
   let sent_before_return = ACT_OK.load(Relaxed) == 1;
@@ -208,17 +208,13 @@ fn c01_q_spsc_recv_timeout_vs_send() {
   kani::cover!(r.is_ok(), "timed receive got the value");
   std::mem::forget(rx);
   std::mem::forget(tx);
-  assert!(sched::points() <= 40, "VERIF-BOUND: more scheduling points than the dispatch covers");
-  });
 }
 
 /// send_batch of two into a full cap-1 channel; two receives land anywhere: completes with Ok(2), order kept.
 #[kani::proof]
 #[kani::unwind(5)]
 fn c05_t_spsc_send_batch_vs_recvs() {
-  with_pick(40, |at| {
   setup!(1, 1, tx, rx);
-  sched::set_preempt_at(at);
   sched::install(a_recv, 2, 1);
   sched::set_stuck_is_bug(true);
   let r = tx.as_ref().unwrap().send_batch(vec![8, 9]);
@@ -231,17 +227,13 @@ fn c05_t_spsc_send_batch_vs_recvs() {
   assert!(rx.as_ref().unwrap().try_recv() == Ok(9) || ACT_OK.load(Relaxed) < 2, "C02: batch order");
   std::mem::forget(rx);
   std::mem::forget(tx);
-  assert!(sched::points() <= 40, "VERIF-BOUND: more scheduling points than the dispatch covers");
-  });
 }
 
 /// recv_batch blocked on empty; a send lands anywhere.
 #[kani::proof]
 #[kani::unwind(5)]
 fn c05_t_spsc_recv_batch_vs_send() {
-  with_pick(40, |at| {
   setup!(2, 0, tx, rx);
-  sched::set_preempt_at(at);
   sched::install(a_send7, 1, 1);
   sched::set_stuck_is_bug(true);
   let r = rx.as_ref().unwrap().recv_batch(2);
@@ -251,8 +243,6 @@ fn c05_t_spsc_recv_batch_vs_send() {
   }
   std::mem::forget(rx);
   std::mem::forget(tx);
-  assert!(sched::points() <= 40, "VERIF-BOUND: more scheduling points than the dispatch covers");
-  });
 }
 
 /// playback / driver self-test probe (never part of a property)
